@@ -32,6 +32,20 @@ func VerifyInclusion(iproof [][sha256.Size]byte, i, j uint64, iLeaf, jRoot [sha2
 		return false
 	}
 
+	// the proof has exactly one term per level up to where the two positions meet,
+	// then one per left sibling still above that node: any other length would let
+	// extra terms re-shape the tree under an arbitrary root
+	if i < j {
+		k := 0
+		for (i-1)>>uint(k) != (j-1)>>uint(k) {
+			k++
+		}
+
+		if len(iproof) != k+bits.OnesCount64((i-1)>>uint(k)) {
+			return false
+		}
+	}
+
 	ciRoot := EvalInclusion(iproof, i, j, iLeaf)
 
 	return jRoot == ciRoot
